@@ -36,3 +36,14 @@ register('C04', 'translation_validation',
          "reals for floats; nodes per type <= 3/5; trajectories follow from equality of the vector field together with "
          "C03's kernel result (no separate trajectory obligations); delays are handled under C09/C11",
          "SMT translation validation of emitted code, vectorize on vs off (symx + z3)", "7/C04")
+register('C15', 'translation_validation',
+         "One generated spec is built four ways - Python classes, YAML text through from_yaml, to_yaml -> from_yaml "
+         "round trip (of the Python-built and of the YAML-loaded template) and base:-derived operators with equation "
+         "edits over identifiers that contain one another - and each emitted function is proved by z3 equal to the same "
+         "reference semantics for all states and parameters. CrossHair decides parser.replace on symbolic equation/term "
+         "strings against a whole-identifier reference (confirmed over all paths within the bound).",
+         "reals for floats; YAML emitter of the harness is trusted; edits are compared with token-level edits of the "
+         "spec; CrossHair bounds |eq| <= 4/5, |term| <= 2, alphabet {r,x,_,space,+,=}; _update_equation itself is not "
+         "decidable by CrossHair (sys.intern realises symbolic strings) and is covered through the derived-template "
+         "pipeline only",
+         "SMT translation validation across frontends (symx + z3) + CrossHair on string helpers", "7/C15")
